@@ -231,6 +231,52 @@ theorem afternoon_12_repaired :
       some (some [{ timex := [84, 49, 50], type := sTime, value := some [49, 50, 58, 48, 48, 58, 48, 48] }]) := by
   decide +kernel
 
+
+/-! ## Chinese (`ChineseTimeParser`, its own decode step) -/
+
+/-- the Chinese configuration with the regenerated tables -/
+def zhCfg (anyHour : Bool) : ZhCfg := { numbersMap := timeNumbers_zh, lowBound := timeLowBound_zh, ampmAnyHour := anyHour }
+
+/-- C07(a),(c) for Chinese digit clock times `H:MM[:SS]` (`handle_digit` → `pack_time_result`): every time 00:00 …
+23:59:59 resolves to itself; hours 1–12 without 上午 / 下午 … give exactly the two readings twelve hours apart.
+Guarded variant (`fix: 1a38b64a7`). -/
+theorem clock24_zh (u : Uni) (ha : u.Ascii) (c : Clock) (w : c.ZhWF u) (ref : DT) (hv : ref.date.valid = true) :
+    resolveTimeZh u (zhCfg false) false c.zhGroups ref =
+      .ok (some (if 1 ≤ c.h ∧ c.h ≤ 12 then [c.value c.h, c.value ((c.h + 12) % 24)] else [c.value c.h])) := by
+  rw [resolveTimeZh_digit u ha (zhCfg false) rfl c w ref hv]
+  split
+  · rename_i h; rw [(toPm_twelve_apart c.h h.1 h.2).1]
+  · rfl
+
+/-- `19:13` as the Chinese extractor captures it -/
+def clock1913 : Clock := { hs := [49, 57], h := 19, ms := some ([49, 51], 13) }
+
+/-- Negative witness (code as found before `fix: 1a38b64a7`, finding `zh-ampm-any-hour`): `19:13` gets a second,
+impossible reading `T31:13` / `31:13:00` … -/
+theorem zh_ampm_any_hour_witness :
+    (resolveTimeZh asciiUni (zhCfg true) false clock1913.zhGroups refWitness).toOption =
+      some (some [{ timex := [84, 49, 57, 58, 49, 51], type := sTime, value := some [49, 57, 58, 49, 51, 58, 48, 48] },
+                  { timex := [84, 51, 49, 58, 49, 51], type := sTime, value := some [51, 49, 58, 49, 51, 58, 48, 48] }]) := by
+  decide +kernel
+
+/-- … and exactly `T19:13` in the guarded variant. -/
+theorem zh_1913_guarded :
+    (resolveTimeZh asciiUni (zhCfg false) false clock1913.zhGroups refWitness).toOption =
+      some (some [{ timex := [84, 49, 57, 58, 49, 51], type := sTime, value := some [49, 57, 58, 49, 51, 58, 48, 48] }]) := by
+  decide +kernel
+
+/-- 下午 (low bound 12 in the regenerated `TimeLowBoundDesc`) is a pm designator: `下午5:00` is 17:00 and `下午12:00` stays
+12:00; 汉字 hours decode through `TimeNumberDictionary` (`十一点半` is 11:30, both readings). Checked on the tables. -/
+theorem zh_designator_examples :
+    (resolveTimeZh asciiUni (zhCfg false) false { hour := [53], min := [48, 48], daydesc := [19979, 21320] } refWitness).toOption =
+      some (some [{ timex := [84, 49, 55, 58, 48, 48], type := sTime, value := some [49, 55, 58, 48, 48, 58, 48, 48] }]) ∧
+    (resolveTimeZh asciiUni (zhCfg false) false { hour := [49, 50], min := [48, 48], daydesc := [19979, 21320] } refWitness).toOption =
+      some (some [{ timex := [84, 49, 50, 58, 48, 48], type := sTime, value := some [49, 50, 58, 48, 48, 58, 48, 48] }]) ∧
+    (resolveTimeZh asciiUni (zhCfg false) true { hour := [21313, 19968], half := [21322] } refWitness).toOption =
+      some (some [{ timex := [84, 49, 49, 58, 51, 48], type := sTime, value := some [49, 49, 58, 51, 48, 58, 48, 48] },
+                  { timex := [84, 50, 51, 58, 51, 48], type := sTime, value := some [50, 51, 58, 51, 48, 58, 48, 48] }]) := by
+  decide +kernel
+
 /-- shape of the TIMEX: `T`, two digits, then `:mm` / `:ss` exactly for the parts that were written -/
 theorem short_time_shape (c : Clock) (hh : Nat) (h : hh < 100) :
     c.timex hh = [84, 48 + hh / 10, 48 + hh % 10] ++ c.tail := by
